@@ -5,6 +5,7 @@ import CCVerif.Lemmas.SchemaGenFrag
 import CCVerif.Lemmas.SchemaGenSim
 import CCVerif.Lemmas.CheckerAnalysis
 import CCVerif.Lemmas.Thesaurus
+import CCVerif.Lemmas.ThesaurusTr
 /-!
 # C07 — incremental schema re-analysis equals analysis from scratch after any edits
 -/
@@ -411,5 +412,146 @@ example : Acyclic refsLang (run refsLang chainHist).store := acyclic_of_check (r
 example : (run refsLang chainHist).report refsLang = ((run refsLang chainHist).scratch refsLang).report refsLang :=
   terms_eq_scratch_refs_partial chainHist ⟨trivial, trivial, trivial, trivial, trivial⟩
     (acyclic_of_check (rank := id) (by decide +kernel))
+
+end CCVerif.Thesaurus
+
+/-! # The TEXT layer, second part: renaming WITH substitution and the `Translate*` family
+
+`Lemmas/ThesaurusTr.lean`: the loop of `TranslateAll` (per round `TextConcept::Translate`, `defGraph.UpdateFor`,
+`termGraph.UpdateFor`) keeps uids distinct and each graph broken-or-current (`graphCur_setDef` per round), and
+`UpdateState` turns any such state into a well-formed one; the single-entity `Translate` / `TranslateTerm` are an
+edit of the term (and definition text) of the target followed by `OnTermChange(target)`; `TranslateDef` is
+`SetDefinitionFor` past its early exit. `Admissible2`: EVERY text-layer operation, with `Erase` of an entity whose
+alias no other entity carries and `Translate` / `TranslateTerm` / `TranslateDef` of a PRESENT entity (their
+`storage.at(target)` is unchecked). No law about `TranslateRaw` is needed for this: incremental and rebuilt state
+hold the same translated content. What renaming does to the resolved texts is `rename_transparent` below. -/
+namespace CCVerif.Thesaurus
+
+/-- **C07, text layer (partial 2).** For every resolver satisfying the frame law and every history of
+`Emplace`/`Insert`, `Erase` (of an entity whose alias no other entity carries), `SetAliasFor` WITH or WITHOUT
+substitution of the mentions, `SetTermFor`, `SetTermFormFor`, `SetDefinitionFor`, `SubstitueAliases`, `TranslateAll`,
+`Translate` / `TranslateTerm` / `TranslateDef` (of a present entity), `UpdateState`, in any order, through any cyclic
+intermediate contents: if the term references of the final content are acyclic, every resolved term and resolved
+definition equals the one of a from-scratch rebuild, and no unchecked `storage.at` was reached.
+Remaining restriction w.r.t. `terms_eq_scratch_statement` (not refuted): `Erase` of an entity whose alias is
+shared; `Translate*` of an absent uid (throws `std::out_of_range` in the code). -/
+theorem terms_eq_scratch_partial2 {T F : Type} [DecidableEq T] [DecidableEq F] (L : Lang T F) (hL : Lawful L)
+    (ops : List (Op T F)) (ha : AdmissibleFrom2 L (St.init L) ops) (hac : Acyclic L (run L ops).store) :
+    (run L ops).report L = ((run L ops).scratch L).report L ∧ (run L ops).stuck = false := by
+  have h := WF.run2 hL ha
+  obtain ⟨h', hs⟩ := h.scratch hL
+  exact ⟨report_eq hL h h' hs hac, h.ok⟩
+
+/-- pointwise, without global acyclicity (cf. `terms_declarative_partial`) -/
+theorem terms_declarative_partial2 {T F : Type} [DecidableEq T] [DecidableEq F] (L : Lang T F) (hL : Lawful L)
+    (ops : List (Op T F)) (ha : AdmissibleFrom2 L (St.init L) ops) :
+    (∀ u w, TVal L (run L ops).store u w → (run L ops).tCache u = w) ∧
+    (∀ c ∈ (run L ops).store, ∀ jf : Nat → T,
+      (∀ m ∈ L.mentions c.defRaw, ∀ a, findAliasL (run L ops).store m = some a → TVal L (run L ops).store a (jf a)) →
+      (run L ops).dCache c.uid = L.resolve c.defRaw (ctxOfL L (run L ops).store jf)) := by
+  have h := WF.run2 hL ha
+  exact ⟨fun u w hv => h.tsync u w trivial hv, fun c hc jf hd => h.dsync c hc trivial jf hd⟩
+
+/-- graph currency after the larger class of histories (cf. `text_graphs_current_partial`) -/
+theorem text_graphs_current_partial2 {T F : Type} [DecidableEq T] [DecidableEq F] (L : Lang T F) (hL : Lawful L)
+    (ops : List (Op T F)) (ha : AdmissibleFrom2 L (St.init L) ops) :
+    ((run L ops).tInvalid = true ∨
+      ((∀ x, x ∈ Graph.liveUids (run L ops).tGraph ↔ x ∈ uids (run L ops).store) ∧
+       ∀ a b, (a, b) ∈ Graph.edges (run L ops).tGraph ↔
+         ∃ c ∈ (run L ops).store, c.uid = b ∧ ∃ m ∈ L.mentions c.termRaw, findAliasL (run L ops).store m = some a)) ∧
+    ((run L ops).dInvalid = true ∨
+      ((∀ x, x ∈ Graph.liveUids (run L ops).dGraph ↔ x ∈ uids (run L ops).store) ∧
+       ∀ a b, (a, b) ∈ Graph.edges (run L ops).dGraph ↔
+         ∃ c ∈ (run L ops).store, c.uid = b ∧ ∃ m ∈ L.mentions c.defRaw, findAliasL (run L ops).store m = some a)) := by
+  have h := WF.run2 hL ha
+  refine ⟨?_, ?_⟩
+  · rcases h.tg with h1 | ⟨_, hg⟩
+    · exact Or.inl h1
+    · exact Or.inr ⟨tLive_iff hg, tEdge_iff hg h.nodup⟩
+  · rcases h.dg with h1 | ⟨_, hg⟩
+    · exact Or.inl h1
+    · exact Or.inr ⟨dLive_iff hg, dEdge_iff hg h.nodup⟩
+
+/-- **C07, text layer, for the modelled `cclLang` resolver**, all operations -/
+theorem terms_eq_scratch_refs_partial2 (ops : List (Op Strings.Bytes Refs.Morph))
+    (ha : AdmissibleFrom2 refsLang (St.init refsLang) ops) (hac : Acyclic refsLang (run refsLang ops).store) :
+    (run refsLang ops).report refsLang = ((run refsLang ops).scratch refsLang).report refsLang :=
+  (terms_eq_scratch_partial2 refsLang refsLang_lawful ops ha hac).1
+
+/-! non-vacuity: X1 with the term "множество", the term of D1 mentions X1, the definition text of D2 mentions D1;
+X1 is renamed to X5 WITH substitution of the mentions; then D1 is translated on its own, all aliases are
+substituted, and everything is translated once more -/
+
+def renameHist : List (Op Strings.Bytes Refs.Morph) :=
+  [.insert ⟨1, "X1", b "множество", [], []⟩,
+   .insert ⟨2, "D1", b "большое @{X1|nomn,sing}", [], []⟩,
+   .insert ⟨3, "D2", [], [], b "см. @{D1|nomn,sing} далее"⟩,
+   .setAlias 1 "X5" true]
+
+example : AdmissibleFrom2 refsLang (St.init refsLang) renameHist := ⟨trivial, trivial, trivial, trivial, trivial⟩
+example : Acyclic refsLang (run refsLang renameHist).store := acyclic_of_check (rank := id) (by decide +kernel)
+set_option synthInstance.maxSize 512 in
+/-- the mention was rewritten and all resolved texts are those of the chain -/
+example : (run refsLang renameHist).report refsLang =
+    [(1, "X5", b "множество", b "множество", [], []),
+     (2, "D1", b "большое @{X5|nomn,sing}", b "большое множество", [], []),
+     (3, "D2", [], [], b "см. @{D1|nomn,sing} далее", b "см. большое множество далее")] := by decide +kernel
+/-- … and equal the from-scratch rebuild, by the theorem -/
+example : (run refsLang renameHist).report refsLang = ((run refsLang renameHist).scratch refsLang).report refsLang :=
+  terms_eq_scratch_refs_partial2 renameHist ⟨trivial, trivial, trivial, trivial, trivial⟩
+    (acyclic_of_check (rank := id) (by decide +kernel))
+
+def translateHist : List (Op Strings.Bytes Refs.Morph) :=
+  renameHist ++
+  [.translate 2 [("X5", "X1")], .substitute [("D1", "D7"), ("X5", "X2")], .translateTerm 2 [("X2", "X5")],
+   .translateDef 3 [("D7", "D1")], .translateAll [("X5", "X2"), ("D1", "D7")], .erase 1]
+
+example : AdmissibleFrom2 refsLang (St.init refsLang) translateHist := by
+  refine ⟨trivial, trivial, trivial, trivial, ?_, trivial, ?_, ?_, trivial, ?_, trivial⟩
+  · show 2 ∈ uids _; decide +kernel
+  · show 2 ∈ uids _; decide +kernel
+  · show 3 ∈ uids _; decide +kernel
+  · show EraseOk _ 1; unfold EraseOk; decide +kernel
+example : Acyclic refsLang (run refsLang translateHist).store := acyclic_of_check (rank := id) (by decide +kernel)
+
+/-! ## the side condition on `Erase` cannot be dropped: `terms_eq_scratch_statement` is false
+
+`Thesaurus` itself never checks aliases (only the identity manager of `RSCore` keeps them unique). Two entities
+with the alias `D2` (uids 1, 2), the term of `D3` mentions `D2` (resolved to uid 1, edge 1 → 3). `Erase(1)` removes
+the vertex 1 with its edge from `termGraph` and re-resolves everything (the mention now denotes uid 2), but no
+edge 2 → 3 is added: the following `SetTermFor(2, …)` does not reach `D3`. The content is acyclic. Replayed on
+the real `Thesaurus` by the harness (`c07 treportx` / `c07 tscratchx` lines: code = model for both the
+incremental and the rebuilt state). -/
+
+def histTextDup : List (Op Strings.Bytes Refs.Morph) :=
+  [.insert ⟨1, "D2", b "w1", [], []⟩, .insert ⟨2, "D2", b "w2", [], []⟩,
+   .insert ⟨3, "D3", b "w3 @{D2|nomn,sing}", [], []⟩, .erase 1, .setTerm 2 (b "n6")]
+
+set_option synthInstance.maxSize 512 in
+theorem terms_dup_alias_counterexample :
+    Acyclic refsLang (run refsLang histTextDup).store ∧
+    (run refsLang histTextDup).report refsLang =
+      [(2, "D2", b "n6", b "n6", [], []), (3, "D3", b "w3 @{D2|nomn,sing}", b "w3 w2", [], [])] ∧
+    ((run refsLang histTextDup).scratch refsLang).report refsLang =
+      [(2, "D2", b "n6", b "n6", [], []), (3, "D3", b "w3 @{D2|nomn,sing}", b "w3 n6", [], [])] :=
+  ⟨acyclic_of_check (rank := id) (by decide +kernel), by decide +kernel, by decide +kernel⟩
+
+set_option synthInstance.maxSize 512 in
+/-- the statement over ALL histories is false (for the model and — the model being a transcription, and the
+history replayed — for `Thesaurus` used without `RSCore`'s alias discipline) -/
+theorem terms_eq_scratch_statement_false : ¬ terms_eq_scratch_statement refsLang := by
+  intro h
+  have h1 := h histTextDup terms_dup_alias_counterexample.1
+  rw [terms_dup_alias_counterexample.2.1, terms_dup_alias_counterexample.2.2] at h1
+  revert h1
+  decide +kernel
+
+/-- the history is exactly outside `Admissible2`: its `Erase` removes an entity whose alias is shared -/
+example : ¬ AdmissibleFrom2 refsLang (St.init refsLang) histTextDup := by
+  intro h
+  have h4 : EraseOk (run refsLang (histTextDup.take 3)).store 1 := h.2.2.2.1
+  revert h4
+  unfold EraseOk
+  decide +kernel
 
 end CCVerif.Thesaurus
